@@ -2,6 +2,7 @@ import FeatherModel.Base.Driver
 import FeatherModel.Model.CodeWrite
 import FeatherModel.Model.PoolWrite
 import FeatherModel.Spec.CodeDenote
+import FeatherModel.Spec.ClassParse
 
 open Driver Sexp CodeWrite
 
@@ -137,11 +138,11 @@ def plainInsns (xs : Array RInsn) : List Insn :=
 
 def u32b := CodeWrite.u32b
 
-/-- `write_attribute`: body first, then the name goes to the pool -/
-def attr (p : PoolWrite.Pool) (name : String) (body : Bytes) : Option (Bytes × PoolWrite.Pool) := do
+/-- `write_attribute`: body first, then the name goes to the pool; `attribute_length` through `write_usize_as_u32` -/
+def attr (p : PoolWrite.Pool) (name : String) (body : Bytes) : Option (ClassWrite.Attr × PoolWrite.Pool) := do
   let (i, p) ← PoolWrite.putUtf8 p (jstr name)
   if body.length > 4294967295 then none else
-  pure (u16b i ++ u32b body.length ++ body, p)
+  pure ((i, body), p)
 
 def putCatches (p : PoolWrite.Pool) : List RExc → Option (List Exc × PoolWrite.Pool)
   | [] => some ([], p)
@@ -171,6 +172,8 @@ inductive R (α : Type) where
 /-- everything the model says about the class file written for a request -/
 structure Out where
   file : Bytes
+  /-- the class file as a structure (`file = ClassWrite.classBytes img`) -/
+  img : ClassWrite.ClassImg
   res : Result
   /-- instructions with the pool indices the `ldc`s received -/
   insns : List Insn
@@ -180,7 +183,7 @@ structure Out where
   lvtt : Option (List (List Nat))
   pool : PoolWrite.Pool
 
-abbrev Tab := Option (Bytes × List (List Nat))
+abbrev Tab := Option (ClassWrite.Attr × List (List Nat))
 
 /-- The whole class file the real writer produces for the harness' skeleton class
 (`C extends java/lang/Object`, version 52.0, one method `static public m()V` with the requested code, max_stack 7, max_locals 9). -/
@@ -210,7 +213,7 @@ def classFile (r : Req) : R Out :=
         match lineRows lp ls with
         | none => .err
         | some rows =>
-          match attr p "LineNumberTable" (u16b ls.length ++ rowsBytes rows) with
+          match attr p "LineNumberTable" (ClassWrite.tableBody rows) with
           | none => .err
           | some (a, p) => .ok (some (a, rows), p)
     match lnt with
@@ -230,7 +233,7 @@ def classFile (r : Req) : R Out :=
           | .error .err => .err
           | .error .panic => .panic
           | .ok rows =>
-            match attr p' name (u16b lvs.length ++ rowsBytes rows) with
+            match attr p' name (ClassWrite.tableBody rows) with
             | none => .err
             | some (a, p) => .ok (some (a, rows), p)
     match lvt p false "LocalVariableTable" with
@@ -241,15 +244,13 @@ def classFile (r : Req) : R Out :=
     | .err => .err
     | .panic => .panic
     | .ok (lvttT, p) =>
-    let ab (t : Tab) : Bytes := match t with | none => [] | some (b, _) => b
-    let cnt (t : Tab) : Nat := match t with | none => 0 | some _ => 1
-    let body := u16b 7 ++ u16b 9 ++ u32b res.code.length ++ res.code ++ u16b excs.length ++ rowsBytes excR ++
-      u16b (cnt lntT + cnt lvtT + cnt lvttT) ++ ab lntT ++ ab lvtT ++ ab lvttT
-    opt (attr p "Code" body) fun (codeAttr, p) =>
+    let sub (t : Tab) : List ClassWrite.Attr := match t with | none => [] | some (a, _) => [a]
+    let codeAttr : ClassWrite.CodeAttr := ⟨7, 9, res.code, excR, sub lntT ++ sub lvtT ++ sub lvttT⟩
+    opt (attr p "Code" (ClassWrite.codeBody codeAttr)) fun (codeA, p) =>
+    let img : ClassWrite.ClassImg :=
+      ⟨0, 52, p.count, PoolWrite.inner p, 0x21, thisI, superI, [], [], [⟨0x9, nameI, descI, [codeA]⟩], []⟩
     .ok {
-      file := [0xca, 0xfe, 0xba, 0xbe, 0, 0, 0, 52] ++ PoolWrite.bytes p ++
-        u16b 0x21 ++ u16b thisI ++ u16b superI ++ u16b 0 ++ u16b 0 ++ u16b 1 ++
-        u16b 0x9 ++ u16b nameI ++ u16b descI ++ u16b 1 ++ codeAttr ++ u16b 0
+      file := ClassWrite.classBytes img, img := img
       res := res, insns := is, excRows := excR
       lnt := lntT.map (·.2), lvt := lvtT.map (·.2), lvtt := lvttT.map (·.2), pool := p }
 
@@ -356,6 +357,21 @@ def oracleWellformed (r : Req) : Ans :=
     let fail (t : String) : Ans := .ok (list [tag "fail", tag t])
     let p := o.pool
     let n := o.res.code.length
+    -- the independent parser (Spec/ClassParse.lean) reads the file back as the image that was written
+    if ClassParse.classFile o.file != some o.img then fail "framing" else
+    if (match o.img.methods with
+        | [m] => (match m.attrs with
+          | [(_, body)] => (match ClassParse.code body with
+            | some c =>
+              let expected : List (Nat × List (List Nat)) :=
+                (o.lnt.map (fun t => (2, t))).toList ++ (o.lvt.map (fun t => (5, t))).toList ++
+                  (o.lvtt.map (fun t => (5, t))).toList
+              c.code != o.res.code || c.excRows != o.excRows || c.attrs.length != expected.length ||
+                !((c.attrs.zip expected).all fun (ae : ClassWrite.Attr × Nat × List (List Nat)) =>
+                    ClassParse.table ae.2.1 ae.1.2 == some ae.2.2)
+            | none => true)
+          | _ => true)
+        | _ => true) then fail "code-framing" else
     if n = 0 ∨ n > 65535 then fail "code-length" else
     if p.count ≠ 1 + slotsSum p then fail "pool-count" else
     if !(p.entries.all fun e => match e.1 with
